@@ -4,6 +4,7 @@ import (
 	"bufio"
 	"fmt"
 	"io"
+	"os"
 	"os/exec"
 	"strconv"
 	"strings"
@@ -75,6 +76,13 @@ func NewSolver(kind string, st *Store, timeoutMs int) (*Solver, error) {
 	}
 	s.send("(set-logic ALL)\n")
 	return s, nil
+}
+
+func tailStr(x string, n int) string {
+	if len(x) > n {
+		return x[len(x)-n:]
+	}
+	return x
 }
 
 func (s *Solver) send(str string) {
@@ -185,6 +193,9 @@ func (s *Solver) Check(assumps []*Term) Result {
 		for _, line := range lines {
 			if strings.HasPrefix(line, "(error") {
 				bad = true
+				if os.Getenv("VCHECK_SOLVER_DEBUG") != "" {
+					fmt.Fprintln(os.Stderr, "solver:", line, "\n  last batch:", tailStr(sb.String(), 1500))
+				}
 			}
 			switch line {
 			case "sat", "unsat", "unknown", "timeout":
